@@ -54,6 +54,15 @@ def gen(rp, rw, tier):
             s, _, _, _ = gen_dt.dt_value(rp, zone=zone)
             pool.append(s)
             meta.append("dt")
+    if rp.random() < 0.3:
+        # the same instant seen from two zones whose local dates (often: months) differ
+        y, m = rp.randint(1975, 2035), rp.randint(1, 12)
+        last = _cal.monthrange(y, m)[1]
+        inst = tzdb.naive_us([y, m, rp.choice([last, last, 1, rp.randint(1, last)]), rp.choice([22, 23, 0, 1, rp.randint(0, 23)]), rp.randint(0, 59), 0, 0])
+        for z in rp.sample(["UTC", "Asia/Tokyo", "America/New_York", "Pacific/Auckland", "America/Los_Angeles", "Asia/Kolkata", 50400, -43200], 2):
+            s_, _, _, _ = gen_dt.dt_value(rp, zone=z, instant=inst, how=rp.choice(["constructed", "converted"]))
+            pool.append(s_)
+            meta.append("dt")
     actors = []
     for c in range(rw.choice([1, 2, 2, 3])):
         ops = []
